@@ -540,6 +540,19 @@ def construct(em, n, ii, rec):
         em.resolve(T.parse(qt(n)))
         return '((struct M_empty_tag){ 0 })'
     tn = norm_name(qt(n) or '')
+    if rec is None and re.match(r'^(const)?array<', tn) and not [a for a in ii if a.get('kind') != 'CXXDefaultArgExpr'] and not n.get('zeroing'):
+        # default-initialised std::array of trivially constructible elements: the elements are indeterminate -> an arbitrary value
+        t = em.ctype_of(qt(n))
+        em.lowerings['M-array(default-initialised std::array: arbitrary element values)'] += 1
+        return '({ %s; __uninit; })' % em.cdecl(em._strip_top_quals(t), '__uninit')
+    if rec is None and re.match(r'^(const)?array<', tn) and len(ii) == 1:
+        try:
+            same = norm_name(T.type_str(T.strip_quals(T.strip_ref(T.parse(qt(ii[0])))))) == norm_name(T.type_str(T.strip_quals(T.parse(qt(n)))))
+        except T.TypeParseError:
+            same = False
+        if same:
+            em.lowerings['M-array(std::array copy/move -> struct copy)'] += 1
+            return em.E(ii[0])
     if rec is None and tn.startswith('unique_ptr<'):
         em.lowerings['M-mem(unique_ptr construction)'] += 1
         t = em.ctype_of(qt(n))
